@@ -208,4 +208,19 @@ ForkMatchesSchedule ==
     IN st.fork = (IF e >= P.DENEB_FORK_EPOCH THEN "deneb" ELSE IF e >= P.CAPELLA_FORK_EPOCH THEN "capella"
                   ELSE IF e >= P.BELLATRIX_FORK_EPOCH THEN "bellatrix" ELSE IF e >= P.ALTAIR_FORK_EPOCH THEN "altair"
                   ELSE "phase0")
+
+\* ---- reachability goals: "invariants" that are EXPECTED to be violated (vacuity guard of the model:
+\* the runner checks with -continue that TLC reports every one of them) ------------------------------
+NeverFinalizes == st.fin.epoch = 0
+NeverJustifies == st.cur_just.epoch = 0
+NeverSlashes == \A i \in AllIndices(st) : ~V(st, i).slashed
+NeverExits == \A i \in AllIndices(st) : V(st, i).slashed \/ V(st, i).exit = FAR
+NeverDeposits == NVal(st) = 4
+NeverActivatesDeposit == \A i \in AllIndices(st) : i < 4 \/ V(st, i).act = FAR
+NeverAltair == st.fork = "phase0"
+NeverBellatrix == st.fork \in {"phase0", "altair"}
+NeverCapella == st.fork \in {"phase0", "altair", "bellatrix"}
+NeverDeneb == st.fork # "deneb"
+NeverWithdraws == AtLeast(st, "capella") => st.next_wd_index = 0
+NeverLeaks == st.slot < 2 \/ ~IsInInactivityLeak(st)
 =============================================================================
